@@ -472,7 +472,7 @@ def seeded_key(seed, i, n=16):
 
 
 def enum_felica_flips(tier, seed):
-    nkeys = 24 if tier == "quick" else 400
+    nkeys = 16 if tier == "quick" else 300
     for i in range(nkeys):
         key = seeded_key(seed, i)
         prod = "lites" if i % 4 == 3 else "lite"
@@ -569,7 +569,7 @@ def run_auth_tampered(case, ctx):
 
 
 def enum_auth_bits(tier, seed):
-    ncfg = 2 if tier == "quick" else 24
+    ncfg = 2 if tier == "quick" else 16
     for i in range(ncfg):
         key = seeded_key(seed, 1000 + i)
         wrong = flip_bits(key, [((i * 37) % 16) * 8 + 1 + i % 7])
@@ -631,7 +631,7 @@ def gen_auth_tamper(draw):
             "fill": draw(st.integers(0, 999)),
             "id": draw(st.one_of(st.none(), key16))}
     nx = len(AUTH_RSP_LEN[(prod, right)])
-    if draw(st.integers(0, 5)) == 0:
+    if draw(st.sampled_from([False] * 5 + [True])):
         case["replay"] = {"x": draw(st.sampled_from([2, 2, nx])),
                           "useed": draw(useed_)}
         return case
@@ -1120,7 +1120,7 @@ LEGS = [
              "through the simulators, recorded key through library + "
              "simulator."),
     Leg("felica_auth", run=run_felica_auth, gen=lambda tier: gen_felica_auth(),
-        quick=2400, thorough=64000, shards_quick=4, shards_thorough=16,
+        quick=1200, thorough=32000, shards_quick=6, shards_thorough=16,
         nt_floor=0.25,
         rule="FeliCa Lite / Lite-S holding a random (or factory / "
              "K1=K2) card key; 1-3 passwords in sequence on one tag object: "
@@ -1131,29 +1131,29 @@ LEGS = [
     Leg("felica_flips", run=run_felica_flip, enum=enum_felica_flips,
         exhaustive=True, shards_quick=4, shards_thorough=16,
         rule="all 128 single-bit changes of the card key (16 parity "
-             "positions must authenticate, 112 must not) x 24 (quick) / 400 "
+             "positions must authenticate, 112 must not) x 16 (quick) / 300 "
              "(thorough) seeded keys, every fourth on Lite-S."),
     Leg("auth_bits", run=run_auth_tampered, enum=enum_auth_bits,
         exhaustive=True, shards_quick=8, shards_thorough=16,
         rule="every single-bit flip of every response frame of the "
              "authentication (Lite: 2 frames, Lite-S: 5 frames / 2 with a "
-             "wrong key), right and wrong password, 2 (quick) / 24 "
+             "wrong key), right and wrong password, 2 (quick) / 16 "
              "(thorough) seeded configurations; non-trivial = flip inside the "
              "data/MAC/WCNT bytes or wrong password."),
     Leg("auth_tamper", run=run_auth_tampered,
-        gen=lambda tier: gen_auth_tamper(), quick=1600, thorough=40000,
+        gen=lambda tier: gen_auth_tamper(), quick=1000, thorough=30000,
         shards_quick=4, shards_thorough=16, nt_floor=0.25,
         rule="1-2 response frames of the authentication changed by 1-4 "
              "xor/set/bit/copy/truncate/append operations or replaced by the "
              "frame of another session of the same tag; non-trivial = change "
              "inside data/MAC/WCNT bytes or wrong password."),
     Leg("read_bits", run=run_read, enum=enum_read_bits, exhaustive=True,
-        shards_quick=2, shards_thorough=12,
+        shards_quick=4, shards_thorough=12,
         rule="every single-bit flip of the response to read_with_mac of "
              "1, 2 and 3 blocks, both products, 1 (quick) / 12 (thorough) "
              "seeded configurations; non-trivial = flip inside data or MAC."),
     Leg("read_mac", run=run_read, gen=lambda tier: gen_read(),
-        quick=3000, thorough=80000, shards_quick=2, shards_thorough=16,
+        quick=2000, thorough=60000, shards_quick=4, shards_thorough=16,
         nt_floor=0.25,
         rule="read_with_mac of 1-4 blocks out of 0..14, 80h, 82h..88h, "
              "(90h, 92h), occasionally illegal numbers, genuine or with 1-4 "
@@ -1161,7 +1161,7 @@ LEGS = [
              "or a modification inside data/MAC."),
     Leg("felica_protect", run=run_felica_protect,
         gen=lambda tier: gen_felica_protect(), quick=400, thorough=9000,
-        shards_quick=4, shards_thorough=16, nt_floor=0.2,
+        shards_quick=4, shards_thorough=16, nt_floor=0.12,
         rule="protect(password[, read_protect, protect_from]) on a tag in "
              "issuance state, then fresh activations with authenticate(same) "
              "and authenticate(other); password as bytes/bytearray (Lite) or "
@@ -1169,7 +1169,7 @@ LEGS = [
              "non-trivial = protect succeeded and the other password differs "
              "in a non-parity bit."),
     Leg("ntag_auth", run=run_ntag_auth, gen=lambda tier: gen_ntag_auth(),
-        quick=3000, thorough=100000, shards_quick=1, shards_thorough=8,
+        quick=3000, thorough=100000, shards_quick=2, shards_thorough=8,
         nt_floor=0.3,
         rule="NTAG210..216 with random / factory PWD and PACK, NAK delivered "
              "as byte or silence; passwords: right, right+tail, single bit "
@@ -1185,7 +1185,7 @@ LEGS = [
              "PWD off; the result must equal the documented comparison of "
              "the received bytes with password[4:6]."),
     Leg("ntag_tamper", run=run_ntag_tamper, gen=lambda tier: gen_ntag_tamper(),
-        quick=2000, thorough=60000, shards_quick=1, shards_thorough=8,
+        quick=2000, thorough=60000, shards_quick=2, shards_thorough=8,
         nt_floor=0.3,
         rule="PWD_AUTH answer replaced / truncated / extended / bit-changed; "
              "non-trivial = the frame really changed."),
